@@ -103,6 +103,36 @@ class Pool:
         sub += [0] * (self.nenv - len(sub))
         self.replmaps.append({"src": names.index(src) + 1, "img": list(img), "sub": sub})
 
+    def close_replacements(self):
+        """Second-level environments p(q(e)) for every ordered pair of registered maps and base environment e, so that
+        replace_q(replace_p(x)) = x at p(q(e)) is a table lookup as well (programs with two replace actions)."""
+        first = [(q, e, q["sub"][e] - 1) for q in self.replmaps for e in range(self.nbase)]
+        for q, e, eq in first:
+            base = self.values[eq]
+            for p in self.replmaps:
+                src = self.terminals[p["src"] - 1][0]
+                shape = dict(self.terminals)[src]
+                img = p["img"]
+                tab = {}
+                for c in comps(shape):
+                    if img[0] == "term":
+                        tab[c] = base[img[1]][c]
+                    elif img[0] == "scale":
+                        tab[c] = Cx.of(img[1]) * base[img[2]][c]
+                    elif img[0] == "sum":
+                        tab[c] = base[img[1]][c] + base[img[2]][c]
+                    elif img[0] == "prod":
+                        tab[c] = base[img[1]][()] * base[img[2]][c]
+                    elif img[0] == "const":
+                        tab[c] = Cx.of(img[1])
+                env = {n: dict(t) for n, t in base.items()}
+                env[src] = tab
+                self.values.append(env)
+                self.nenv += 1
+                for m in self.replmaps:
+                    m["sub"] += [0] * (self.nenv - len(m["sub"]))
+                p["sub"][eq] = self.nenv
+
     # ---- TLA+ rendering -----------------------------------------------------------------------
     def tla_terminals(self):
         return "<<" + ", ".join(f'[nm |-> "{n}", sh |-> {_seq(s)}]' for n, s in self.terminals) + ">>"
